@@ -35,7 +35,9 @@ Record snapshot := {
   s_views : list (option entry_views);                 (* per queried entry spelling *)
   s_items : list (option (list cell));                 (* per queried spelling: [wl[id, s] for id in wl] *)
   s_dst : list (option (list (list Q)));               (* per (ref, ignore_missing) *)
-  s_paps : list (option (list (Z * list Z)))           (* per (ref, marker) *)
+  s_paps : list (option (list (Z * list Z)));          (* per (ref, marker) *)
+  s_attrs : list attr_res;                             (* per queried spelling: wl.<s> *)
+  s_kws : list (option (list cell))                    (* per (keyword, name): get_list(keyword=name, flat=True) *)
 }.
 
 Record queries := {
@@ -44,7 +46,9 @@ Record queries := {
   q_items : list string;
   q_iter : list string;
   q_dst : list (string * bool);
-  q_paps : list (string * Z)
+  q_paps : list (string * Z);
+  q_attrs : list string;
+  q_kws : list (string * Z)
 }.
 
 Inductive op :=
@@ -55,6 +59,9 @@ Inductive op :=
 Record wl_case := {
   k_hdr : list string;
   k_data : list row;
+  k_row : string;                     (* Wordlist(..., row=, col=) *)
+  k_col : string;
+  k_meta : list (string * cell);      (* the non-integer keys of the source dictionary *)
   k_lowk : list (Z * Z);
   k_rawk : list (Z * Z);
   k_q0 : queries;
@@ -116,7 +123,9 @@ Definition snapshot_of (w : wl) (q : queries) : snapshot :=
                      option_map (map (fun kv => (fst kv, map (pap_code (snd rm)) (snd kv))))
                                 (get_paps D ci X k me)
                  | _, _ => None
-                 end) (q_paps q)
+                 end) (q_paps q);
+     s_attrs := map (get_attr w) (q_attrs q);
+     s_kws := map (fun sv => kw_list w (fst sv) (snd sv)) (q_kws q)
   |}.
 
 Definition apply_op (w : wl) (o : op) : option (wl * list (list (Z * Z))) :=
@@ -146,7 +155,7 @@ Fixpoint run_steps (st : option wl) (steps : list (op * queries * option snapsho
   end.
 
 Definition run_model (c : wl_case) : option snapshot * list (option snapshot) * list (list (Z * Z)) :=
-  match build wordlist_rc (keys_of (k_lowk c) (k_rawk c)) (k_hdr c) (k_data c) with
+  match build_gen wordlist_rc (keys_of (k_lowk c) (k_rawk c)) (k_hdr c) (k_data c) (k_row c) (k_col c) (k_meta c) with
   | None => (None, map (fun _ => None) (k_steps c), [])
   | Some w => let r := run_steps (Some w) (k_steps c) in (Some (snapshot_of w (k_q0 c)), fst r, snd r)
   end.
@@ -166,6 +175,15 @@ Definition ev_eqb (a b : entry_views) : bool :=
   && cll_eqb (ev_entries a) (ev_entries b)
   && list_eqb (option_eqb (list_eqb (pair_eqb Z.eqb cll_eqb))) (ev_etym a) (ev_etym b).
 
+Definition attr_eqb (a b : attr_res) : bool :=
+  match a, b with
+  | AList x, AList y => zl_eqb x y
+  | ATable x, ATable y => cll_eqb x y
+  | AAtom x, AAtom y => x =? y
+  | AErr, AErr => true
+  | _, _ => false
+  end.
+
 Definition snap_eqb (a b : snapshot) : bool :=
   zl_eqb (s_rows a) (s_rows b)
   && zl_eqb (s_cols a) (s_cols b)
@@ -179,7 +197,9 @@ Definition snap_eqb (a b : snapshot) : bool :=
   && list_eqb (option_eqb ev_eqb) (s_views a) (s_views b)
   && list_eqb (option_eqb cl_eqb) (s_items a) (s_items b)
   && list_eqb (option_eqb (list_eqb (list_eqb q_eqb))) (s_dst a) (s_dst b)
-  && list_eqb (option_eqb (list_eqb (pair_eqb Z.eqb zl_eqb))) (s_paps a) (s_paps b).
+  && list_eqb (option_eqb (list_eqb (pair_eqb Z.eqb zl_eqb))) (s_paps a) (s_paps b)
+  && list_eqb attr_eqb (s_attrs a) (s_attrs b)
+  && list_eqb (option_eqb cl_eqb) (s_kws a) (s_kws b).
 
 Definition corr_ok (c : wl_case) : bool :=
   let '(m0, ms, convs) := run_model c in
